@@ -508,11 +508,11 @@ func (env *SpecEnv) place(e ast.Expr) *Place {
 		idx := env.expr(x.Index).t()
 		switch u := bv.T.Underlying().(type) {
 		case *types.Slice:
-			return &Place{Root: u.Elem(), Addr: add(bv.C[0], idx), Cur: u.Elem()}
+			return &Place{Root: u.Elem(), Addr: adr(bv.C[0], idx), Cur: u.Elem()}
 		case *types.Pointer:
 			if at, ok := u.Elem().Underlying().(*types.Array); ok {
 				pl := vc.placeOf(bv.val())
-				return &Place{Root: at.Elem(), Addr: add(env.fr.elemBase(pl), idx), Cur: at.Elem()}
+				return &Place{Root: at.Elem(), Addr: adr(env.fr.elemBase(pl), idx), Cur: at.Elem()}
 			}
 		}
 		specFail("index place on %s", bv.T)
@@ -627,17 +627,17 @@ func (env *SpecEnv) index(x *ast.IndexExpr) SVal {
 	}
 	switch u := bv.T.Underlying().(type) {
 	case *types.Slice:
-		pl := &Place{Root: u.Elem(), Addr: add(bv.C[0], idx), Cur: u.Elem()}
+		pl := &Place{Root: u.Elem(), Addr: adr(bv.C[0], idx), Cur: u.Elem()}
 		return env.loaded(vc.load(pl, env.state()))
 	case *types.Basic:
 		if isString(bv.T) {
 			vc.regFam("E$uint8", "Int")
-			return SVal{T: types.Typ[types.Uint8], C: []Term{vc.sel(vc.get(env.state(), "E$uint8"), add(bv.C[0], idx))}}
+			return SVal{T: types.Typ[types.Uint8], C: []Term{vc.sel(vc.get(env.state(), "E$uint8"), adr(bv.C[0], idx))}}
 		}
 	case *types.Pointer:
 		if at, ok := u.Elem().Underlying().(*types.Array); ok {
 			pl := vc.placeOf(bv.val())
-			ep := &Place{Root: at.Elem(), Addr: add(env.fr.elemBase(pl), idx), Cur: at.Elem()}
+			ep := &Place{Root: at.Elem(), Addr: adr(env.fr.elemBase(pl), idx), Cur: at.Elem()}
 			return fromVal(vc.load(ep, env.state()))
 		}
 	}
@@ -675,9 +675,9 @@ func (env *SpecEnv) sliceExpr(x *ast.SliceExpr) SVal {
 		hi = env.expr(x.High).t()
 	}
 	if isStr {
-		return SVal{T: bv.T, C: []Term{add(arr, lo), sub(hi, lo)}}
+		return SVal{T: bv.T, C: []Term{adr(arr, lo), sub(hi, lo)}}
 	}
-	return SVal{T: bv.T, C: []Term{add(arr, lo), sub(hi, lo), sub(cp, lo)}}
+	return SVal{T: bv.T, C: []Term{adr(arr, lo), sub(hi, lo), sub(cp, lo)}}
 }
 
 func (env *SpecEnv) composite(x *ast.CompositeLit) SVal {
@@ -1003,7 +1003,8 @@ func (env *SpecEnv) callExpr(x *ast.CallExpr) SVal {
 	case "disjoint":
 		a, b := arg(0), arg(1)
 		alen, blen := env.extent(a), env.extent(b)
-		return sBool(or(sx("<=", sx("+", a.C[0], alen), b.C[0]), sx("<=", sx("+", b.C[0], blen), a.C[0])))
+		// an empty extent (nil slice) is disjoint from everything
+		return sBool(or(sx("<=", alen, "0"), sx("<=", blen, "0"), sx("<=", sx("+", a.C[0], alen), b.C[0]), sx("<=", sx("+", b.C[0], blen), a.C[0])))
 	case "inrange":
 		// inrange(x, lo, hi): lo <= x < hi
 		return sBool(and(sx("<=", arg(1).t(), arg(0).t()), sx("<", arg(0).t(), arg(2).t())))
@@ -1152,7 +1153,7 @@ func (env *SpecEnv) seqEq(ea, eb ast.Expr, a, b SVal) Term {
 		if n, ok := litInt(pr[0].C[1]); ok && n <= 64 {
 			cs := []Term{eq(a.C[1], b.C[1])}
 			for i := int64(0); i < n; i++ {
-				cs = append(cs, eq(sel(ha, add(a.C[0], itoa(i))), sel(hb, add(b.C[0], itoa(i)))))
+				cs = append(cs, eq(sel(ha, adr(a.C[0], itoa(i))), sel(hb, adr(b.C[0], itoa(i)))))
 			}
 			return and(cs...)
 		}
@@ -1160,7 +1161,7 @@ func (env *SpecEnv) seqEq(ea, eb ast.Expr, a, b SVal) Term {
 	vc.nfresh++
 	k := fmt.Sprintf("|k!%d|", vc.nfresh)
 	return and(eq(a.C[1], b.C[1]),
-		fmt.Sprintf("(forall ((%s Int)) (=> (and (<= 0 %s) (< %s %s)) (= (select %s (+ %s %s)) (select %s (+ %s %s)))))", k, k, k, a.C[1], ha, a.C[0], k, hb, b.C[0], k))
+		fmt.Sprintf("(forall ((%s Int)) (=> (and (<= 0 %s) (< %s %s)) (= (select %s %s) (select %s %s))))", k, k, k, a.C[1], ha, adr(a.C[0], k), hb, adr(b.C[0], k)))
 }
 
 // ---------------------------------------------------------------------------
@@ -1212,7 +1213,7 @@ func (env *SpecEnv) assignItems(cl *Clause) []assignItem {
 					for _, l := range leaves(ea.Elem) {
 						fam := family(ea.Elem, l.key())
 						vc.regFam(fam, l.Sort)
-						items = append(items, assignItem{fam: fam, sort: l.Sort, lo: add(pl.Addr, itoa(ea.Off)), n: itoa(ea.N)})
+						items = append(items, assignItem{fam: fam, sort: l.Sort, lo: adr(pl.Addr, itoa(ea.Off)), n: itoa(ea.N)})
 					}
 				}
 			}
@@ -1268,7 +1269,7 @@ func (fr *Frame) checkAssigns(out *State, reach Term) {
 	sort.Strings(fams)
 	alloc0 := vc.get(fr.entry, "$alloc")
 	for _, fam := range fams {
-		if fam == "$alloc" {
+		if fam == "$alloc" || strings.HasPrefix(fam, "L$") {
 			continue
 		}
 		before, after := vc.get(fr.entry, fam), out.m[fam]
